@@ -8,6 +8,9 @@ From Y2 Require Import Gen.GenPolicies Model.Policies.
 Import ListNotations.
 Open Scope string_scope.
 
+(* the general lemmas hold whatever the translated declarations are: keep tactics from computing with them *)
+Opaque facet_decls basic_policy_bases FUEL.
+
 (* ------------------------------------------------------------------------------------------------ 1. equality *)
 
 Fixpoint ty_ind' (P : ty -> Prop)
@@ -240,8 +243,8 @@ Proof.
   intros [|f] g k args; [now exists args|]. simpl.
   assert (E : normalize f (TPolicy k) = TPolicy k) by (apply normalize_atom; intros ? ? H; discriminate H).
   rewrite E. destruct (find_decl g) as [d|].
-  - destruct (fill_head (normalize f) (skipn (S (length (map (normalize f) args))) (f_defaults d)) (TPolicy k) (map (normalize f) args)) as [r Hr].
-    exists r. now rewrite Hr.
+  - match goal with |- context [fill ?n ?r (TPolicy k :: ?a)] => destruct (fill_head n r (TPolicy k) a) as [r0 Hr]; rewrite Hr end.
+    now exists r0.
   - now exists (map (normalize f) args).
 Qed.
 
